@@ -77,9 +77,13 @@ func c20MembershipOf(c *Ctx, info *types.Info, fn *types.Func) *c20Member {
 	if b, ok := sig.Results().At(0).Type().Underlying().(*types.Basic); !ok || b.Info()&types.IsBoolean == 0 {
 		return nil
 	}
+	// the receiver of a method (`p.in(list)`, `list.has(p)`) is parameter 0: see c20MemberArgs
 	var params []types.Object
 	if fi.Decl.Recv != nil {
-		return nil
+		if sig.Recv() == nil || len(fi.Decl.Recv.List) != 1 || len(fi.Decl.Recv.List[0].Names) != 1 {
+			return nil
+		}
+		params = append(params, info.Defs[fi.Decl.Recv.List[0].Names[0]])
 	}
 	for _, f := range fi.Decl.Type.Params.List {
 		if len(f.Names) == 0 {
@@ -446,9 +450,12 @@ func c20MemberLeaf(c *Ctx, info *types.Info, l c20Leaf, scope ast.Node) (elem ty
 			}
 			return
 		}
-		if m := c20MembershipOf(c, info, calleeOf(info, call)); m != nil && m.elem < len(call.Args) && m.lst < len(call.Args) {
-			if id, isID := unparen(call.Args[m.elem]).(*ast.Ident); isID && info.Uses[id] != nil {
-				return info.Uses[id], call.Args[m.lst], false, true
+		callee := calleeOf(info, call)
+		if m := c20MembershipOf(c, info, callee); m != nil {
+			if args, argsOK := c20MemberArgs(info, call, callee); argsOK && m.elem < len(args) && m.lst < len(args) {
+				if id, isID := unparen(args[m.elem]).(*ast.Ident); isID && info.Uses[id] != nil {
+					return info.Uses[id], args[m.lst], false, true
+				}
 			}
 		}
 		return
@@ -501,6 +508,47 @@ func c20MemberLeaf(c *Ctx, info *types.Info, l c20Leaf, scope ast.Node) (elem ty
 		}
 	}
 	return
+}
+
+// c20MemberArgs: the argument expressions of call in the order of the parameters of c20MembershipOf: for a method the
+// receiver first. A method called through a selector `x.m(args)` gets x as its receiver only if x has the receiver's
+// type as it stands (no implicit & or *: the method then sees another variable than the caller's, or a copy); a
+// method expression `T.m(x, args)` already lists the receiver.
+func c20MemberArgs(info *types.Info, call *ast.CallExpr, fn *types.Func) ([]ast.Expr, bool) {
+	if fn == nil {
+		return nil, false
+	}
+	sig, ok := fn.Type().(*types.Signature)
+	if !ok {
+		return nil, false
+	}
+	if sig.Recv() == nil {
+		return call.Args, true
+	}
+	sel, ok := unparen(call.Fun).(*ast.SelectorExpr)
+	if !ok {
+		return nil, false
+	}
+	s := info.Selections[sel]
+	if s == nil {
+		return nil, false
+	}
+	switch s.Kind() {
+	case types.MethodExpr:
+		return call.Args, true
+	case types.MethodVal:
+		if len(s.Index()) != 1 {
+			return nil, false // promoted through an embedded field
+		}
+		// (Selection.Indirect is not consulted: it is spuriously true for a *T operand with a *T receiver, go
+		// issue 8353; the identity of the types below says the same thing reliably)
+		tv, known := info.Types[sel.X]
+		if !known || !types.Identical(tv.Type, sig.Recv().Type()) {
+			return nil, false
+		}
+		return append([]ast.Expr{sel.X}, call.Args...), true
+	}
+	return nil, false
 }
 
 func c20SwapOp(op token.Token) token.Token {
